@@ -184,6 +184,27 @@ fn registry_json(nodes: u16) -> String {
     serde_json::to_string(&r).expect("json")
 }
 
+/// boundary values for the stored numeric fields of a node entry (u16 number, u32 pid, u8 network id,
+/// usize log-file limits, U256 reward balance); out-of-range ones must be rejected by the parser, not wrap
+fn numeric_edge(rng: &mut Rng, good: &str) -> String {
+    let (field, vals): (&str, &[&str]) = match rng.below(6) {
+        0 => ("\"number\":1", &["\"number\":0", "\"number\":65535", "\"number\":65536", "\"number\":-1", "\"number\":1.0"]),
+        1 => ("\"pid\":null", &["\"pid\":0", "\"pid\":4294967295", "\"pid\":4294967296", "\"pid\":-1"]),
+        2 => ("\"network_id\":null", &["\"network_id\":0", "\"network_id\":255", "\"network_id\":256"]),
+        3 => ("\"max_log_files\":null", &["\"max_log_files\":0", "\"max_log_files\":18446744073709551615", "\"max_log_files\":18446744073709551616"]),
+        4 => ("\"max_archived_log_files\":null", &["\"max_archived_log_files\":18446744073709551615", "\"max_archived_log_files\":1e30"]),
+        _ => ("\"reward_balance\":null", &[
+            "\"reward_balance\":\"0x0\"",
+            "\"reward_balance\":\"0xffffffffffffffffffffffffffffffffffffffffffffffffffffffffffffffff\"",
+            "\"reward_balance\":\"0x1ffffffffffffffffffffffffffffffffffffffffffffffffffffffffffffffff\"",
+            "\"reward_balance\":1",
+            "\"reward_balance\":\"\"",
+        ]),
+    };
+    let v: &str = *rng.pick(vals);
+    good.replace(field, v)
+}
+
 fn main() {
     let args = &common::parse_args();
     let mut out = Out::new(&args.out);
@@ -205,6 +226,13 @@ fn main() {
         v.push("incr none".into());
         v.push("registry missing x x".into());
         v.push("registry - x x".into());
+        {
+            let good = registry_json(1);
+            for (a, b) in [("\"number\":1", "\"number\":65535"), ("\"number\":1", "\"number\":65536"), ("\"pid\":null", "\"pid\":4294967295"),
+                           ("\"pid\":null", "\"pid\":4294967296"), ("\"max_log_files\":null", "\"max_log_files\":18446744073709551615")] {
+                v.push(format!("registry {} x x", hex(good.replace(a, b).as_bytes())));
+            }
+        }
         for s in ["", "-", "+", "+1", "-1", "1-", "-1-2", "1-2-3", "1-1", "2-1", "1-2", "+1-+2", "00001-00002", "65535", "65536", "65535-65536", "0-65536",
                   "0-0", "1 - 2", " 1", "1\n", "１-２", "1–2", "0x10", "1_0", "١-٢", "99999999999999999999", "1-99999999999999999999", "--", "1--2", "é"] {
             v.push(format!("portparse {}", hx(s)));
@@ -259,7 +287,7 @@ fn main() {
                 }
                 _ => {
                     let good = registry_json(rng.below(3) as u16);
-                    let bytes: Vec<u8> = match rng.below(9) {
+                    let bytes: Vec<u8> = match rng.below(11) {
                         0 => vec![],
                         1 => good.clone().into_bytes(),
                         2 => good.as_bytes()[..rng.below(good.len() as u64) as usize].to_vec(),
@@ -268,6 +296,7 @@ fn main() {
                         5 => { let gl = rng.below(10) as usize; rng.bytes(gl) }
                         6 => good.replace("\"peer_id\":null", "\"peer_id\":\"not-a-peer-id\"").into_bytes(),
                         7 => good.replace("\"connected_peers\":null", "\"connected_peers\":[\"\", \"12D3\"]").into_bytes(),
+                        8 | 9 => { let nn = 1 + rng.below(2) as u16; numeric_edge(&mut rng, &registry_json(nn)).into_bytes() }
                         _ => b"{}".to_vec(),
                     };
                     if rng.chance(1, 12) {
